@@ -225,7 +225,8 @@ def lift_big_m(desc, m=10 ** 18):
         if c["kind"] == "matrix" and not ints(c["table"]):
             return False
     for v in desc["variables"]:
-        if v.get("cost") and v["cost"]["kind"] == "dict" and not ints(v["cost"]["costs"]):
+        # (a value missing from a cost dict costs 0.0, a float)
+        if v.get("cost") and v["cost"]["kind"] == "dict" and (not ints(v["cost"]["costs"]) or v["cost"].get("drop_zero")):
             return False
     for c in desc["constraints"]:
         if c["kind"] == "matrix":
